@@ -1,15 +1,11 @@
 #!/bin/bash
 # One-time build of the framework from files on disk only (offline).
+# Builds the harness binaries behind the checks that MANIFEST.json claims
+# (all of them are in-process checks served by vc-front); `./check` rebuilds
+# incrementally against /repo's current working tree on every call.
 set -e
 export CARGO_NET_OFFLINE=true
 mkdir -p /verif/.target /verif/.work /verif/evidence /verif/replays
 cd /verif/harness
-/verif/build_cli.sh &
-P2=$!
-# one crate at a time (shared dependencies are built once); a crate that does
-# not build only disables its own checks (they then report exit 2)
-for b in vc-front vc-eval vc-doc vc-engines vc-sv vc-loop vc-drv vc-proj vc-fault vc-ls vc-synth vc-dep vc-crash vc-aig; do
-  cargo build --release -p $b || echo "WARNING: $b did not build"
-done
-wait $P2 || echo "WARNING: veryl CLI did not build"
+cargo build --release -p vc-front
 echo "setup done"
